@@ -1,7 +1,7 @@
 (* C13Corr.v — comparison of the C13 models (NumText.v, JsonText.v, DateText.v) with observations of the real
    code written by harness/cmd/c13.  No proofs. *)
 From Coq Require Import ZArith NArith List Bool.
-From Verif Require Import lib.Dec model.NumText model.Civil model.DateText.
+From Verif Require Import lib.Dec lib.Json model.NumText model.Civil model.DateText model.JsonText.
 Import ListNotations.
 
 Definition dec_same (a b : dec) : bool := ((mant a =? mant b) && (dexp a =? dexp b))%Z.
@@ -19,7 +19,9 @@ Inductive ncase :=
   (* ToXNumber on an arbitrary text *)
 | KNumParse (s : text) (r : option (Z * Z))
   (* operators.Equal on two numbers, and Decimal.Equal on them *)
-| KNumEq (m1 e1 m2 e2 : Z) (op_equal : bool) (dec_equal : bool).
+| KNumEq (m1 e1 m2 e2 : Z) (op_equal : bool) (dec_equal : bool)
+  (* decimal.NewFromString on a number literal (exponent notation included) *)
+| KNumNew (s : text) (r : option (Z * Z)).
 
 Definition ncheck (k : ncase) : bool :=
   match k with
@@ -27,6 +29,7 @@ Definition ncheck (k : ncase) : bool :=
   | KNumParse s r => opt_dec_same (parse_number s) r
   | KNumEq m1 e1 m2 e2 o d =>
       Bool.eqb (equal_num (Dec m1 e1) (Dec m2 e2)) o && Bool.eqb (dec_eqb (Dec m1 e1) (Dec m2 e2)) d
+  | KNumNew s r => opt_dec_same (new_from_string s) r
   end.
 
 Fixpoint mismatches_from {A} (chk : A -> bool) (i : N) (ks : list A) : list N :=
@@ -96,3 +99,20 @@ Definition dcheck (k : dcase) : bool :=
   end.
 
 Definition dmismatches (ks : list dcase) : list N := mismatches_from dcheck 0%N ks.
+
+(* ------------------------------------------------------------------------------------------------ *)
+(* JSON: the tree of the input document, and the tree of what json(parse_json(doc)) wrote (None = error value) *)
+
+Inductive jcase := KJson (doc : json) (out : option json).
+
+Definition jcheck (k : jcase) : bool :=
+  match k with
+  | KJson doc out =>
+      match json_roundtrip doc, out with
+      | Some a, Some b => json_eqb a b
+      | None, None => true
+      | _, _ => false
+      end
+  end.
+
+Definition jmismatches (ks : list jcase) : list N := mismatches_from jcheck 0%N ks.
